@@ -105,6 +105,7 @@ inline void pick() {
 
 // park the calling thread at a yield point until it is granted; returns with mu HELD
 inline void yield_begin(const char* op, const char* obj, long arg, std::function<bool()> enabled = nullptr) {
+  if (!self) return;   // bootstrap (single-threaded set-up before init_main): execute directly, unlogged
   pthread_mutex_lock(&G.mu);
   self->pend.op = op; self->pend.obj = obj; self->pend.arg = arg; self->pend.enabled = enabled;
   self->st = TS_READY; G.running--;
@@ -120,6 +121,7 @@ inline void yield_begin(const char* op, const char* obj, long arg, std::function
 }
 // log the completed operation and release the lock
 inline void yield_end(const char* op, const char* obj, long val) {
+  if (!self) return;
   fprintf(G.log, "{\"seq\":%ld,\"t\":%d,\"op\":\"%s\",\"obj\":\"%s\",\"val\":%ld}\n", G.seq, self->id, op, obj, val);
   G.seq++;
   if (G.replay && G.cur.has_val && strcmp(op, "api") != 0 && G.cur.val != val) {
@@ -216,9 +218,9 @@ class thread {
 class mutex {
  public:
   mutex() { reg_obj(this); }
-  void lock() { yield_begin("lock", objname(this), 0, [this] { return owner_ < 0; }); owner_ = self->id; yield_end("lock", objname(this), 0); }
+  void lock() { yield_begin("lock", objname(this), 0, [this] { return owner_ < 0; }); owner_ = self ? self->id : 0; yield_end("lock", objname(this), 0); }
   void unlock() { yield_begin("unlock", objname(this), 0); owner_ = -1; yield_end("unlock", objname(this), 0); }
-  bool try_lock() { yield_begin("trylock", objname(this), 0); bool ok = owner_ < 0; if (ok) owner_ = self->id; yield_end("trylock", objname(this), ok); return ok; }
+  bool try_lock() { yield_begin("trylock", objname(this), 0); bool ok = owner_ < 0; if (ok) owner_ = self ? self->id : 0; yield_end("trylock", objname(this), ok); return ok; }
  private:
   int owner_ = -1;
 };
